@@ -625,6 +625,25 @@ def check(pid, tier, seed):
                 if k is not None and k < len(org) and org[k] == 'iterd':
                     r['as_tags'] = [9]
                     own.append(r)
+    # 1b. the harness's own assertions about the implementation (it prints them and dies): the history up to the
+    #     death is a concrete failing input for the properties the assertion speaks about
+    HARNESS_ASSERTS = [('try_from/from_any disagree', (14, 19, 3), 'try_from and from_any disagree on the same dynamically typed handle (one accepts what the other refuses)'),
+                       ('canary', (2, 3, 10), 'a component value read back is not a value that was stored (canary bytes differ)'),
+                       ('misaligned', (2, 3), 'a component reference is misaligned')]
+    harness_hits = []
+    for r in all_results:
+        d = r['case'].get('died') or ''
+        for needle, props, text in HARNESS_ASSERTS:
+            if 'harness: ' in d and needle in d and any(in_tags(dict(prop=p_, reason=99), P['tags']) for p_ in props):
+                harness_hits.append((r, text))
+                break
+    for r, text in harness_hits[:2]:
+        c = r['case']
+        n = len([o for o in c['obs'] if o is not None]) + 1
+        path = write_replay(pid, dict(property=pid, kind='specification-violation', world=c['world'], config=c['config'], seed=seed, stream=c.get('stream'),
+                                      reason=text + ' (assertion of the harness; the process then exits)', failing_op_index=n - 1,
+                                      ops=[O.to_rust(o) for o in c['ops'][:n]], ops_struct=c['ops'][:n], observed=c['obs'][:n], died=c.get('died'), broken=broken))
+        violations.append('VIOLATION property=%s replay=%s' % (pid, path))
     # 2. model / implementation disagreements, decl mismatches, deaths
     diffs = [r for r in all_results if r['diff'] is not None or r['case'].get('died') or r['case'].get('decl_mismatch')]
 
@@ -861,6 +880,10 @@ def replay(path):
         k = direct_ref_of(c['ops'][r['spec']['index']])
         org = direct_origins(w, c['ops'], c['obs'])
         c07_direct = k is not None and k < len(org) and org[k] == 'iterd'
+    if j.get('died') and c.get('died') and 'harness: ' in c['died']:
+        print('the harness asserts:', c['died'][-300:])
+        print('VIOLATION property=%s replay=%s' % (pid, path))
+        return 1
     if (r['spec'] and in_tags(r['spec'], PROPS[pid]['tags'])) or c07_direct or (pid == 'C11' and r['diff'] is not None):
         print('VIOLATION property=%s replay=%s' % (pid, path))
         return 1
